@@ -1010,7 +1010,7 @@ class SupportGenerator(CodeGenerator):
         for line_pp in line_pps:
             _reset_line_pp(line_pp)
         with open(str(target), "w", encoding="utf-8") as target_file:
-            with open(str(resource), "r", encoding="utf-8") as resource_file:
+            with open(str(resource), "r", encoding="utf-8", newline="\n") as resource_file:
                 for resource_line in resource_file:
                     if resource_line.endswith("\r\n"):
                         resource_line_tuple = (resource_line[0:-2], "\r\n")
